@@ -55,8 +55,99 @@ pub fn regime_cfg(r: Regime, rng: &mut Rng, sqlite_pct: u32) -> SimCfg {
     c
 }
 
+/// C20, time-to-live half: snapshots of real ages 0..3 s, start-up with ttl in {0,1,2,3,10}.
+fn c20_ttl(ctx: &Ctx, out: &mut Outcome) {
+    use crate::sim::scenario::*;
+    use crate::sim::*;
+    use mdk_storage_traits::MdkStorageProvider;
+    use openmls_traits::OpenMlsProvider;
+    let dir = ctx.scratch_dir("c20ttl");
+    let cases = ctx.tier.pick(6usize, 24);
+    let results = std::sync::Mutex::new(Outcome::default());
+    std::thread::scope(|sc| {
+        for case in 0..cases {
+            let dir = dir.clone();
+            let results = &results;
+            sc.spawn(move || {
+                let mut o = Outcome::default();
+                let mut rng = Rng::for_scenario(ctx.seed, "C20-ttl", case as u64);
+                let sub = dir.join(format!("k{case}"));
+                let _ = std::fs::create_dir_all(&sub);
+                let mut w = World::empty(sub.clone(), format!("ttl-{case}"));
+                let mut cfg = mdk_core::MdkConfig::default();
+                cfg.epoch_snapshot_retention = 5;
+                let m = w.add_client(BackendKind::Memory, cfg.clone(), &mut rng);
+                let s = w.add_client(BackendKind::Sqlite, cfg.clone(), &mut rng);
+                let g = w.create_group(&[m, s], &[m], None, "ttl");
+                let gid = w.gid(g);
+                // 4 commits applied by s, ~1.1 s apart => snapshots of different ages
+                for k in 0..4 {
+                    w.t += 2;
+                    let t = w.t;
+                    if let Some(c) = w.act_commit(m, g, &CommitKind::SelfUpdate, t, OwnMode::Immediate, 0, &mut rng) {
+                        w.deliver(s, c, OwnMode::Echo);
+                    }
+                    if k < 3 {
+                        std::thread::sleep(std::time::Duration::from_millis(1100));
+                    }
+                }
+                let listed = crate::with_mdk!(w.clients[s].mdk, x => x.provider.storage().list_group_snapshots(&gid).unwrap_or_default());
+                let db = w.clients[s].db_path.clone().unwrap();
+                // close the original
+                w.clients[s].mdk = AnyMdk::Mem(mdk_core::MDK::new(mdk_memory_storage::MdkMemoryStorage::default()));
+                for ttl in [0u64, 1, 2, 3, 10] {
+                    for attempt in 0..3 {
+                        let copy = sub.join(format!("ttl-{case}-{ttl}.db"));
+                        let _ = std::fs::remove_file(&copy);
+                        std::fs::copy(&db, &copy).unwrap();
+                        let now = || std::time::SystemTime::now().duration_since(std::time::UNIX_EPOCH).unwrap().as_secs();
+                        let t0 = now();
+                        let mut c2 = cfg.clone();
+                        c2.snapshot_ttl_seconds = ttl;
+                        let st = mdk_sqlite_storage::MdkSqliteStorage::new_unencrypted(&copy).unwrap();
+                        let mdk = mdk_core::MDK::builder(st).with_config(c2).build();
+                        let t1 = now();
+                        if t0 != t1 {
+                            // second boundary crossed while building: retry, not judged
+                            o.count("c20_ttl_cases_retried");
+                            if attempt == 2 {
+                                o.inconclusive.push("ttl case crossed a second boundary three times".into());
+                            }
+                            continue;
+                        }
+                        let after = mdk.provider.storage().list_group_snapshots(&gid).unwrap_or_default();
+                        let expect: Vec<&(String, u64)> = listed.iter().filter(|(_, created)| *created >= t0.saturating_sub(ttl)).collect();
+                        o.count("c20_ttl_cases");
+                        o.note("c20_ttl_outcomes", format!("ttl={ttl}: {} of {} survive", after.len(), listed.len()));
+                        let got: Vec<&String> = after.iter().map(|x| &x.0).collect();
+                        let exp: Vec<&String> = expect.iter().map(|x| &x.0).collect();
+                        if got != exp {
+                            let older_survived = after.iter().any(|(_, c)| *c < t0.saturating_sub(ttl));
+                            o.violation(
+                                format!("C20|ttl|{}", if older_survived { "expired-snapshot-survived-startup" } else { "young-snapshot-removed-at-startup" }),
+                                format!("ttl={ttl} now={t0}: snapshots before start-up {:?}, after {:?}, expected survivors {}", listed.iter().map(|x| x.1).collect::<Vec<_>>(), after.iter().map(|x| x.1).collect::<Vec<_>>(), exp.len()),
+                                json!({"kind": "ttl", "case": case, "ttl": ttl}),
+                            );
+                        }
+                        drop(mdk);
+                        let _ = std::fs::remove_file(&copy);
+                        break;
+                    }
+                }
+                w.cleanup();
+                results.lock().unwrap().merge(o);
+            });
+        }
+    });
+    out.merge(results.into_inner().unwrap());
+    let _ = std::fs::remove_dir_all(&dir);
+}
+
 pub fn run(ctx: &Ctx) -> i32 {
-    let (prop, out) = run_outcome(ctx);
+    let (prop, mut out) = run_outcome(ctx);
+    if prop == "C20" && ctx.replay.is_none() {
+        c20_ttl(ctx, &mut out);
+    }
     let (rule, floors, assumptions) = describe(prop, &out, ctx);
     finish(ctx, "exploration", rule, out, floors, assumptions, json!({}))
 }
@@ -194,8 +285,8 @@ fn describe(prop: &str, out: &Outcome, ctx: &Ctx) -> (&'static str, Vec<Floor>, 
             common_assumptions,
         ),
         "C20" => (
-            "after every step of generated histories with retention values 1,2,3,5 the acting client's stored snapshots are listed: count <= retention, one per epoch, all below the current epoch, each naming the commit applied at that epoch on the current branch, no gap above the oldest kept one",
-            if replaying { vec![] } else { vec![Floor { what: "snapshot checks", have: out.get("c20_snapshot_checks"), need: 5000 }, Floor { what: "checks at full retention", have: out.get("c20_checks_at_full_retention"), need: 100 }] },
+            "after every step of generated histories with retention values 1,2,3,5 the acting client's stored snapshots are listed: count <= retention, one per epoch, all below the current epoch, each naming the commit applied at that epoch on the current branch, no gap above the oldest kept one; plus the time-to-live half: SQLite clients with 4 snapshots of real ages 0..3.3 s are re-opened (MDK::builder().build()) with snapshot_ttl_seconds in {0,1,2,3,10} and the surviving set must be exactly the snapshots with created_at >= now - ttl (cases that cross a second boundary are retried, not judged)",
+            if replaying { vec![] } else { vec![Floor { what: "snapshot checks", have: out.get("c20_snapshot_checks"), need: 5000 }, Floor { what: "checks at full retention", have: out.get("c20_checks_at_full_retention"), need: 100 }, Floor { what: "ttl start-up cases", have: out.get("c20_ttl_cases"), need: 20 }] },
             common_assumptions,
         ),
         _ => ("", vec![], common_assumptions),
